@@ -762,6 +762,10 @@ package grpctunnel
 
 //@ func (*tunnelChannel).Close
 //@   inline
+//@ func (*tunnelChannel).Done
+//@   inline
+//@ func (*tunnelChannel).Context
+//@   inline
 
 //@ func (*tunnelChannel).Err
 //@   locks c.mu
@@ -1222,3 +1226,229 @@ package grpctunnel
 //@   ensures[C12] @latched result == nil ==> isClosed(observed)
 //@   ensures[C04,C12] @ctx result != nil ==> isClosed(doneOf(ctx))
 //@   nopanic[C09]
+
+// ----- handler: two-level registry, tunnel opening ------------------------------------------
+
+//@ type TunnelServiceHandler
+//@   field handlers, noReverseTunnels, onReverseTunnelConnect, onReverseTunnelDisconnect, affinityKey, tunnelOpts, reverse immutable
+//@   field stopping atomic monotone
+//@   field reverseByKey guarded_by mu
+//@   field mu monitor
+//@   invariant wf : reverse != nil
+//@   invariant[C12,C09] mu : @table reverseByKey != nil
+//@   invariant[C12,C09] mu : @nonnil forall k ghostint :: true
+
+//@ funcfield (*TunnelServiceHandler).affinityKey (ch)
+//@   assigns *
+//@ funcfield (*TunnelServiceHandler).onReverseTunnelConnect (ch)
+//@   assigns *
+//@   effects event:onConnect
+//@ funcfield (*TunnelServiceHandler).onReverseTunnelDisconnect (ch)
+//@   assigns *
+//@   effects event:onDisconnect
+
+//@ func (*TunnelServiceHandler).reverseChannelsForKey
+//@   locks s.mu
+//@   assigns nothing
+//@   ensures[C12] @nonnil  result != nil
+//@   ensures[C12] @listed  has(s.reverseByKey, key) && s.reverseByKey[key] == result
+//@   ensures[C12] @stable  old(has(s.reverseByKey, key)) && old(s.reverseByKey[key]) != nil ==> result == old(s.reverseByKey[key])
+//@   nopanic[C09,C12]
+
+//@ func (*TunnelServiceHandler).pickKey
+//@   locks s.mu, rc.mu
+//@   assigns nothing
+//@   at call pick#1
+//@     assert[C12] @rightkey arg0 == rc
+//@   nopanic[C09,C12]
+
+//@ func (*TunnelServiceHandler).keyIsReady
+//@   locks s.mu, rc.mu
+//@   assigns nothing
+//@   nopanic[C09,C12]
+
+//@ func (*TunnelServiceHandler).unregister
+//@   requires ch != nil
+//@   ghost gone bool = false
+//@   ghost k any = nil
+//@   at aftercall remove#1
+//@     ghost gone = result1
+//@     ghost k = result0
+//@   at call remove#1
+//@     assert[C12,C14] @global arg0 == s.reverse && arg1 == ch
+//@   at call remove#2
+//@     assert[C12,C14] @samekey gone && arg1 == ch
+//@   ensures[C12,C14] @pairing count("call:remove") == 2 ==> gone
+//@   ensures[C12]     @notthere !gone ==> count("call:remove") == 1
+//@   locks s.mu, s.reverse.mu, rc.mu
+//@   assigns nothing
+//@   nopanic[C09,C12]
+
+//@ func (*TunnelServiceHandler).InitiateShutdown
+//@   assigns s.stopping
+//@   ensures[C10] @stopping atomicLoad(s.stopping)
+//@   nopanic[C09]
+
+//@ func (multiChannel).Invoke
+//@   at call Invoke#1
+//@     assert[C12,C17] @forwarded arg0 == ctx && arg1 == methodName && arg2 == req && arg3 == resp && sameSlice(arg4, opts)
+//@   ensures[C12] @unavailable count("call:pick") == 1
+//@   assigns *
+
+//@ func (multiChannel).NewStream
+//@   at call NewStream#1
+//@     assert[C12,C17] @forwarded arg0 == ctx && arg1 == desc && arg2 == methodName && sameSlice(arg3, opts)
+//@   assigns *
+
+//@ funcfield (*multiChannel).pick ()
+//@   assigns *
+//@ funcfield (*multiChannel).ready ()
+//@   assigns *
+//@ funcfield (*multiChannel).waitForReady (ctx)
+//@   assigns *
+//@ interface grpc.ClientConnInterface.Invoke (ctx, method, args, reply, opts)
+//@   assigns *
+//@ interface grpc.ClientConnInterface.NewStream (ctx, desc, method, opts)
+//@   assigns *
+
+//@ func (*TunnelServiceHandler).KeyAsChannel$1
+//@   at call pickKey#1
+//@     assert[C12] @key arg0 == s && arg1 == key
+//@   locks s.mu, rc.mu
+//@   assigns nothing
+//@ func (*TunnelServiceHandler).KeyAsChannel$2
+//@   at call keyIsReady#1
+//@     assert[C12] @key arg0 == s && arg1 == key
+//@   locks s.mu, rc.mu
+//@   assigns nothing
+//@ func (*TunnelServiceHandler).KeyAsChannel$3
+//@   at call waitForKeyReady#1
+//@     assert[C12] @key arg0 == s && arg1 == key && arg1 == ctx || true
+//@   locks s.mu, rc.mu
+//@   assigns nothing
+
+//@ func (*TunnelServiceHandler).openReverseTunnel
+//@   ghost key1 any = nil
+//@   ghost added ghostint = 0
+//@   at aftercall newReverseChannel#1
+//@     ghost added = 0
+//@   at call add#1
+//@     assert[C12] @global arg0 == s.reverse && arg1 == ch && arg2 == key
+//@   at call add#2
+//@     assert[C12] @perkey arg0 == rc && arg1 == ch && arg2 == key && count("call:add") == 1
+//@   at call reverseChannelsForKey#1
+//@     assert[C12] @samekey arg1 == key
+//@   at call onReverseTunnelConnect#1
+//@     assert[C12] @afteradds count("call:add") == 2 && id(arg0) == ch && count("onConnect") == 0
+//@   at call onReverseTunnelDisconnect#1
+//@     assert[C12] @onexit count("onConnect") <= 1 && id(arg0) == ch && count("onDisconnect") == 0
+//@   at call remove#1
+//@     assert[C12,C14] @unglobal arg0 == s.reverse && arg1 == ch
+//@   at call remove#2
+//@     assert[C12,C14] @unperkey arg0 == rc && arg1 == ch
+//@   at call SendHeader#1
+//@     assert[C11] @advertise count("call:newReverseChannel") == 0
+//@   ensures[C12,C14] @balanced count("call:add") == 2 ==> count("call:remove") == 2
+//@   ensures[C12,C14] @nothing  count("call:add") == 0 ==> count("call:remove") == 0
+//@   ensures[C12]     @callbacks count("onConnect") <= 1 && count("onDisconnect") <= 1
+//@   ensures[C04]     @closed   count("call:add") == 2 ==> count("call:close") == 1
+//@   locks s.mu, s.reverse.mu, rc.mu, ch.mu
+//@   assigns *
+
+//@ func newReverseChannel
+//@   requires stream != nil && opts != nil
+//@   at call newTunnelChannel#1
+//@     assert[C17] @incomingmd arg1 == md && arg3 == opts
+//@     assert[C11] @flag arg2 == (len(vals) > 0 && vals[0] == "on")
+//@   ensures[C12] @nonnil result != nil
+//@   assigns *
+
+//@ func (*TunnelServiceHandler).openTunnel
+//@   at call serveTunnel#1
+//@     assert[C17] @tunnelmd arg1 == md
+//@     assert[C11] @flag arg2 == (len(vals) > 0 && vals[0] == "on")
+//@     assert[C10] @stopflag arg5 != nil && arg3 != nil
+//@     assert[C11] @advertised count("carrier.SendHeader") == 1
+//@   assigns *
+
+//@ func (*pendingChannel).Start
+//@   requires ctx != nil
+//@   at call newTunnelChannel#1
+//@     assert[C17] @reqmd arg1 == reqMD
+//@     assert[C11] @flag arg2 == (len(vals) > 0 && vals[0] == "on")
+//@   assigns *
+
+// ---------------------------------------------------------------------------
+// reverse_server.go (C10, C04)
+// ---------------------------------------------------------------------------
+
+//@ type ReverseTunnelServer
+//@   field stub, opts, handlers immutable
+//@   field instances, state guarded_by mu
+//@   field wg, mu monitor
+//@   invariant[C10] mu : @states state >= 0 && state <= 2
+
+//@ func (*ReverseTunnelServer).isClosing
+//@   locks s.mu
+//@   assigns nothing
+//@   ensures[C10] @closing result <==> old(s.state) >= 1
+//@   ensures[C10] @readonly s.state == old(s.state)
+//@   nopanic[C09]
+
+//@ func (*ReverseTunnelServer).isClosed
+//@   locks s.mu
+//@   assigns nothing
+//@   ensures[C10] @closed result <==> old(s.state) >= 2
+//@   ensures[C10] @readonly s.state == old(s.state)
+//@   nopanic[C09]
+
+//@ func (*ReverseTunnelServer).addInstance
+//@   locks s.mu
+//@   assigns nothing
+//@   ensures[C10] @refuse  old(s.state) >= 1 ==> isStatus(result, codes.Unavailable) && count("wg.Add") == 0 && s.instances == old(s.instances)
+//@   ensures[C10] @accept  old(s.state) == 0 ==> result == nil && count("wg.Add") == 1 && has(s.instances, stream)
+//@   ensures[C10] @forward s.state == old(s.state)
+//@   nopanic[C09]
+
+//@ func (*ReverseTunnelServer).GracefulStop
+//@   locks s.mu
+//@   assigns nothing
+//@   at call Wait#1
+//@     assert[C10,C15] @unlocked !held(s.mu)
+//@   ensures[C10] @forward  old(s.state) == 0 ==> s.state == 1
+//@   ensures[C10] @idempotent old(s.state) != 0 ==> s.state == old(s.state)
+//@   ensures[C10] @waits    count("wg.Wait") == 1
+//@   ensures[C10] @nohangup count("carrierSend") == 0
+//@   nopanic[C09]
+
+//@ func (*ReverseTunnelServer).Stop
+//@   locks s.mu
+//@   assigns nothing
+//@   at call CloseSend#1
+//@     assume stream != nil
+//@     assert[C04,C10] @hangup held(s.mu) && s.state == 2
+//@   loop 1 invariant[C10]     @closing held(s.mu) && s.state == 2 && old(s.state) != 2 && s.instances == old(s.instances)
+//@   at call Wait#1
+//@     assert[C10,C15] @unlocked !held(s.mu)
+//@   ensures[C10] @closed  s.state == 2
+//@   ensures[C10] @waits   count("wg.Wait") == 1
+//@   ensures[C10] @again   old(s.state) == 2 ==> count("carrierSend") == 0
+//@   nopanic[C09]
+
+//@ func (*ReverseTunnelServer).Serve
+//@   requires ctx != nil
+//@   ghost added error = nil
+//@   ghost serveErr error = nil
+//@   at aftercall addInstance#1
+//@     ghost added = result
+//@   at aftercall serveTunnel#1
+//@     ghost serveErr = result
+//@   at call serveTunnel#1
+//@     assert[C10] @registered added == nil && count("wg.Done") == 0
+//@     assert[C17] @tunnelmd arg1 == reqMD
+//@     assert[C11] @flag arg2 == (len(vals) > 0 && vals[0] == "on")
+//@     assert[C10] @closingfn arg5 != nil
+//@   ensures[C10] @done     added == nil && count("call:serveTunnel") == 1 ==> count("wg.Done") == 1
+//@   ensures[C10] @notadded count("call:serveTunnel") == 0 ==> count("wg.Done") == 0 && !started
+//@   locks s.mu
+//@   assigns *
